@@ -1,6 +1,7 @@
 package deploymc
 
 import (
+	"github.com/nspcc-dev/neo-go/pkg/encoding/bigint"
 	"bytes"
 	"context"
 	"crypto/sha256"
@@ -344,7 +345,7 @@ func methodsIn(script []byte) string {
 }
 
 func forbiddenInRerun(script []byte) string {
-	for _, m := range []string{"deploy", "update", "register", "addRecord", "setRecord", "designateAsRole"} {
+	for _, m := range []string{"deploy", "update", "register", "registerTLD", "addRecord", "setRecord", "designateAsRole"} {
 		// emit.AppCall pushes the method name as PUSHDATA1 <len> <name>
 		if bytes.Contains(script, append([]byte{0x0c, byte(len(m))}, m...)) {
 			return m
@@ -435,6 +436,19 @@ func checkChain(h *Harness, s Schedule) []Violation {
 		} else if cs.NEF.Checksum != checksum[key] {
 			vs = append(vs, Violation{"wrong-executable", where("name", nm), fmt.Sprintf("%s.neofs points to a contract whose executable is not the supplied one", nm)})
 		}
+		if cs != nil && strings.HasPrefix(nm, "alphabet") {
+			// "one Alphabet contract per member": the contract behind alphabet<i> was deployed for member i
+			var ind int
+			fmt.Sscanf(nm, "alphabet%d", &ind)
+			if it, err := invoke(h, hs, "name"); err != nil {
+				vs = append(vs, Violation{"wrong-alphabet-contract", where("name", nm), fmt.Sprintf("name() of %s: %v", nm, err)})
+			} else if b, _ := it.TryBytes(); string(b) != (glag{}).LetterByIndex(ind) {
+				vs = append(vs, Violation{"wrong-alphabet-contract", where("name", nm), fmt.Sprintf("%s.neofs points to the Alphabet contract named %q, expected %q", nm, b, (glag{}).LetterByIndex(ind))})
+			}
+			if si := h.bc.GetStorageItem(cs.ID, []byte("index")); si == nil || bigint.FromBytes(si).Int64() != int64(ind) {
+				vs = append(vs, Violation{"wrong-alphabet-contract", where("name", nm), fmt.Sprintf("%s.neofs points to an Alphabet contract with stored index %v, expected %d", nm, []byte(si), ind)})
+			}
+		}
 		if prev, dup := seen[hs]; dup {
 			vs = append(vs, Violation{"name-resolution", where("name", nm), fmt.Sprintf("%s and %s resolve to the same contract", nm, prev)})
 		}
@@ -520,6 +534,7 @@ type tierCfg struct {
 	ns           []int
 	sleepNs      []int
 	sleepLens    []int
+	longSleepNs  []int // committee sizes that get 150-round sleeps placed shortly before the Notary round
 	crashNs      []int
 	crashDelays  []int
 	crashEvery   int // crash at the start of every k-th round
@@ -534,10 +549,10 @@ type tierCfg struct {
 
 func tierOf(name string) tierCfg {
 	if name == "thorough" {
-		return tierCfg{ns: []int{1, 2, 3, 4, 5, 6, 7}, sleepNs: []int{1, 2, 3, 4}, sleepLens: []int{1, 3, 150}, crashNs: []int{1, 2, 3, 4}, crashDelays: []int{0, 2}, crashEvery: 1,
+		return tierCfg{ns: []int{1, 2, 3, 4, 5, 6, 7}, sleepNs: []int{1, 2, 3, 4}, sleepLens: []int{1, 3, 150}, crashNs: []int{1, 2, 3, 4}, crashDelays: []int{0, 2, 150}, crashEvery: 1,
 			callCrashNs: []int{2, 3}, callStride: 3, reorderNs: []int{1, 2, 3}, absentNs: []int{3, 4, 5, 6, 7}, repeat: 16, twoDevN: 2, twoDevStride: 6}
 	}
-	return tierCfg{ns: []int{1, 2, 3, 4}, sleepNs: []int{1, 2, 3}, sleepLens: []int{1}, crashNs: []int{1, 2, 3}, crashDelays: []int{0}, crashEvery: 2,
+	return tierCfg{ns: []int{1, 2, 3, 4}, sleepNs: []int{1, 2, 3}, sleepLens: []int{1}, longSleepNs: []int{2, 3}, crashNs: []int{1, 2, 3}, crashDelays: []int{0}, crashEvery: 2,
 		callCrashNs: nil, reorderNs: []int{2}, absentNs: []int{3, 4}, repeat: 3}
 }
 
@@ -681,9 +696,9 @@ func TestC13(t *testing.T) {
 		}
 		rep.Determinism[fmt.Sprint(n)] = fmt.Sprintf("%d default runs, identical=%v", len(rs), same)
 		if !same {
-			// the same schedule must give the same run; a divergence is reported as what it is
-			rep.Violations = append(rep.Violations, map[string]any{"class": "nondeterministic-default-run", "where": map[string]any{"n": n},
-				"msg": fmt.Sprintf("n=%d: repeated default schedules differ (rounds %v)", n, roundsOf(rs)), "schedule": Schedule{N: n}})
+			// the same schedule must give the same run: the explorer cannot enumerate what it does not control.
+			// The statement does not demand determinism, so this is a harness diagnostic, not a verdict
+			rep.Harness = append(rep.Harness, fmt.Sprintf("n=%d: repeated default schedules differ (rounds %v): a source of nondeterminism is not under the scheduler's control", n, roundsOf(rs)))
 		}
 	}
 	rep.Bound = "0 deviations"
@@ -695,6 +710,18 @@ func TestC13(t *testing.T) {
 			hz[n] = horizonFor(n, l)
 		}
 		def := func(n int) RunResult { return byN[n][0] }
+		// a member that sleeps through a whole validity window (120 blocks) around the Notary bootstrap: the
+		// shared designation data expires and is rolled over, stale signatures must be recognised
+		for _, n := range cfg.longSleepNs {
+			nr := def(n).NotaryRound
+			for i := 0; i < n; i++ {
+				for _, back := range []int{10, 60} {
+					if nr-back > 1 {
+						scheds = append(scheds, Schedule{N: n, Devs: []Dev{{Kind: "sleep", Member: i, Round: nr - back, Len: 150}}})
+					}
+				}
+			}
+		}
 		for _, n := range cfg.sleepNs {
 			for i := 0; i < n; i++ {
 				for r := 0; r < defLen[n]; r++ {
